@@ -151,6 +151,11 @@ pub fn state_c12(r: &Refs, p: &altrios_core::train::TrainState, s: &altrios_core
     t(close_tol(s.offset.value - p.offset.value, want, 1e-7, 1e-9), "offset-not-advanced-by-mean-speed@solve_step", format!("offset {} -> {} but dt*(v0+v1)/2 = {}", p.offset.value, s.offset.value, want));
     t(close_tol(s.offset_back.value, s.offset.value - s.length.value, 1e-12, 1e-9), "rear-position-not-front-minus-length@update_res", format!("offset_back {} but offset - length = {}", s.offset_back.value, s.offset.value - s.length.value));
     t(close_tol(s.total_dist.value - p.total_dist.value, (s.offset.value - p.offset.value).abs(), 1e-9, 1e-9), "total-distance-not-sum-of-moves@solve_step", format!("total_dist {} -> {} for a move of {}", p.total_dist.value, s.total_dist.value, s.offset.value - p.offset.value));
+    // "identify that front position ON THE ROUTE": a set-speed trace may drive the front past the end of the path (the
+    // next step then fails in the resistance lookup); there is no segment to identify there
+    if s.offset.value > r.route.total() {
+        return f;
+    }
     let cands = r.route.link_at(s.offset.value);
     let ok = cands.iter().any(|(li, off)| *li as u32 == s.link_idx_front && close_tol(*off, s.offset_in_link.value, 1e-12, 1e-9));
     t(ok, "front-segment-or-in-segment-offset-wrong@set_link_and_offset", format!("link_idx_front {} offset_in_link {} but position {} is {:?}", s.link_idx_front, s.offset_in_link.value, s.offset.value, cands));
